@@ -41,7 +41,7 @@ NOTE = {
     'C12': 'Trusted: Verus/Z3, Kani/CBMC, assumed contracts for slab::Slab and (in Kani) a linear-scan stand-in for std HashMap; selectors assumed in Verus and bounded-checked in Kani (<= 3 slots quick); pid-reuse precondition from the property quantifier.',
 }
 NOTE.update({
-    'C11': 'Trusted: Verus/Z3; model SignalSystem trait (sync, &mut self); async/await stripped; hash_map::Entry contract used for btree_map::Entry; derived PartialEq/Ord assumed structural; iteration over the table through an assumed model of the mutable map iterator. Covered on the table: set_action, internal dispositions, enter_subshell, catch/take of a named signal. Not covered: take_caught_signal, timing of trap execution.',
+    'C11': 'Trusted: Verus/Z3; model SignalSystem trait (sync, &mut self); async/await stripped; hash_map::Entry contract used for btree_map::Entry; derived PartialEq/Ord assumed structural; iteration over the table through an assumed model of the mutable map iterator. Covered on the table: set_action, internal dispositions, enter_subshell, catch/take of a named signal. Also: run_traps_for_caught_signals runs the action of every caught signal handed out exactly once, never inside another trap action (opaque calls behind a ghost monitor). Not covered: take_caught_signal itself, run_trap ($? preservation), WHEN the interpreter reaches a command boundary.',
     'C08': 'Decides two clauses of C08 and nothing else: trap reset on subshell entry (same trusted base as C11) and, for pipelines, that the parent is left with the descriptors it had (PipeSet, against an assumed model of the descriptor table).',
 })
 NOTE.update({
